@@ -516,7 +516,12 @@ def _make_file_or_dir_dep(
         _path = Path(base) / path
 
     # we check if it is a file (if it exists) or rely on suffix to guess
-    is_file = _path.is_file() if _path.exists() else path.suffix != ""
+    try:
+        exists = _path.exists()
+    except OSError:
+        # e.g. a name longer than the file system allows
+        exists = False
+    is_file = _path.is_file() if exists else path.suffix != ""
 
     if is_file:
         return FileDependency(
